@@ -933,6 +933,10 @@ CK_RV SoftHSM::C_GetMechanismInfo(CK_SLOT_ID slotID, CK_MECHANISM_TYPE type, CK_
 		return CKR_SLOT_ID_INVALID;
 	}
 
+	// A mechanism that the configuration removed is not supported
+	if (std::find(supportedMechanisms.begin(), supportedMechanisms.end(), type) == supportedMechanisms.end())
+		return CKR_MECHANISM_INVALID;
+
 	AsymmetricAlgorithm* rsa = CryptoFactory::i()->getAsymmetricAlgorithm(AsymAlgo::RSA);
 	if (rsa != NULL)
 	{
